@@ -54,6 +54,10 @@ Controller calls `run()` - may precede it; `notify_all_producers_finished` arms 
 delay is configured and the engine is alive, whether or not it was started.
 Never-ending tasks: `Outcome.hang`; the sub-step out of `running` is not enabled until the task has been killed
 (the engine step is a stutter), so a history in which nobody kills the task leaves the engine `blocked` for ever.
+* `killAfterLaunch` (fixes/C13-kill-delay-expires-before-launch.diff, /repo 2d673a1): a poll that finds `_suicide` set
+  right after it launched a task kills that task.  Without it a kill delay that expires between the `_suicide` check at
+  the start of a poll and the launch only signals the PREVIOUS task: a newly launched task that never ends by itself is
+  never killed and the engine thread waits for ever.
 No Mathlib import (this file is linked into `drv-c13`).
 -/
 namespace St4sd.Repeat
@@ -72,6 +76,7 @@ structure Cfg where
   pre : List Nat           -- components whose output already exists when run() primes lastLaunched
   guardNone : Bool
   killOnSuicidePoll : Bool
+  killAfterLaunch : Bool
   deriving DecidableEq, Repr
 
 /-- `job.producerInstances` is empty -/
@@ -223,7 +228,8 @@ def engStep (cfg : Cfg) (s : St) (o : Outcome) : St :=
       { s with consume := consume, lastLaunched := s.clock, aged := false,
                execLog := ⟨s.clock, pdws, canConsume cfg s.outs, o != .raised⟩ :: s.execLog,
                hasProc := s.hasProc || (o != .raised),
-               procKilled := false,
+               -- `if self._suicide: my_process.kill()` right after the launch (third repair)
+               procKilled := cfg.killAfterLaunch && s.suicide && (o != .raised),
                pc := .running isNew fc pdws o }
     else
       { s with consume := consume, pc := .ready isNew fc pdws false false false }
